@@ -263,6 +263,7 @@ func buildIntrinsics() map[string]Intrinsic {
 			}
 			return m.tf.Const(64, uint64(n))
 		}
+		t[p+"vGhostGoroutinesNow"] = t[p+"vGhostGoroutines"]
 		t[p+"vGhostSettle"] = func(m *Machine, fr *Frame, fn *ssa.Function, a []Value) Value {
 			// let every other runnable goroutine run until it blocks or exits (no clock advance)
 			g := m.cur
